@@ -3,9 +3,6 @@
 //! Oracle: no panic; a successfully decoded value packs to exactly `pack_sz()` bytes and those
 //! bytes decode to an equal value (floats bitwise) with nothing left over.
 //!
-//! Known findings are excluded unless `C15_FUZZ_STRICT` is set: R-R (an enum/Result-typed message
-//! field with bytes after its first field makes prototk assert) by the independent predicate
-//! `oneof_tail_trigger`, R-Q (float wire type) by skipping the re-encode check for `Floats`.
 #![no_main]
 #![allow(dead_code)]
 
@@ -20,15 +17,8 @@ use model::*;
 use types::{decode, encode, schema, serror_from_text};
 
 fuzz_target!(|data: &[u8]| {
-    let strict = std::env::var_os("C15_FUZZ_STRICT").is_some();
     for id in ALL_IDS {
-        if !strict && oneof_tail_trigger(schema, id, data) {
-            continue;
-        }
         let Ok((v, _rem)) = decode(id, data) else { continue };
-        if !strict && has_float(schema, id) {
-            continue;
-        }
         let mut texts = vec![];
         err_texts(&v, &mut texts);
         if !texts.iter().all(|t| serror_from_text(t).map(|e| e.to_string()).as_deref() == Some(*t)) {
